@@ -464,6 +464,20 @@ def _only_materialised_callers(model: Model, fn: FunctionInfo, pname: str) -> bo
     return seen > 0
 
 
+def _hands_back_argument(model: Model, fn: FunctionInfo, value: ast.expr, name: str) -> bool:
+    """``value`` is ``helper(name, ..)`` for a package function with a ``return <that parameter>`` statement."""
+    if not (isinstance(value, ast.Call) and isinstance(value.func, ast.Name) and value.args and isinstance(value.args[0], ast.Name) and value.args[0].id == name):
+        return False
+    r = model.resolve_global(fn.module, value.func.id)
+    if not r or r[0] != "func":
+        return False
+    callee = r[1]
+    if not callee.params:
+        return False
+    first = callee.params[0].name
+    return any(isinstance(n, ast.Return) and isinstance(n.value, ast.Name) and n.value.id == first for n in ast.walk(callee.node))
+
+
 def iterable_param_reuse(model: Model, fn: FunctionInfo) -> list[Lint]:
     """A parameter annotated ``Iterable`` / ``Iterator`` (callers may pass a generator) is consumed twice - or
     inside a loop - before the function has materialised it: the second consumer sees it exhausted."""
@@ -480,6 +494,11 @@ def iterable_param_reuse(model: Model, fn: FunctionInfo) -> list[Lint]:
         if fn.name.startswith("_") and not fn.name.startswith("__") and _only_materialised_callers(model, fn, p.name):
             continue
         rebinds = [n.lineno for n in ast.walk(fn.node) if isinstance(n, ast.Name) and n.id == p.name and isinstance(n.ctx, ast.Store)]
+        # `xs = helper(xs)` with a package helper that can hand its argument back unchanged (a loader that only
+        # resolves locations) leaves the name bound to the caller's one-shot iterable
+        for a_ in ast.walk(fn.node):
+            if isinstance(a_, ast.Assign) and len(a_.targets) == 1 and isinstance(a_.targets[0], ast.Name) and a_.targets[0].id == p.name and _hands_back_argument(model, fn, a_.value, p.name):
+                rebinds = [ln for ln in rebinds if ln != a_.lineno]
         first_rebind = min(rebinds, default=10**9)
         skip = set()
         for n in ast.walk(fn.node):
@@ -563,6 +582,31 @@ def mutate_while_iterating(model: Model, fn: FunctionInfo) -> list[Lint]:
     return uniq
 
 
+def global_mutable_leak(model: Model, fn: FunctionInfo) -> list[Lint]:
+    """``return SOME_CONSTANT`` (or ``self.x = SOME_CONSTANT``) where the module-level name is bound to a MUTABLE
+    container (a set / list / dict display, ``set(..)`` / ``list(..)`` / ``dict(..)`` call or a comprehension): every
+    caller gets the same object, so what one of them adds shows up for all (a default shared by every service /
+    converter built in the process)."""
+    out: list[Lint] = []
+    consts = fn.module.constants
+
+    def mutable(node) -> bool:
+        if isinstance(node, (ast.Set, ast.List, ast.Dict, ast.ListComp, ast.SetComp, ast.DictComp)):
+            return True
+        return isinstance(node, ast.Call) and isinstance(node.func, ast.Name) and node.func.id in ("set", "list", "dict", "defaultdict", "OrderedDict")
+
+    local = {n.id for n in ast.walk(fn.node) if isinstance(n, ast.Name) and isinstance(n.ctx, ast.Store)} | {p.name for p in fn.params}
+    for n in ast.walk(fn.node):
+        leak = None
+        if isinstance(n, ast.Return) and isinstance(n.value, ast.Name):
+            leak = (n.value.id, "returned to the caller")
+        elif isinstance(n, ast.Assign) and isinstance(n.value, ast.Name) and any(isinstance(t, ast.Attribute) for t in n.targets):
+            leak = (n.value.id, f"stored as {ast.unparse(n.targets[0])}")
+        if leak and leak[0] not in local and leak[0] in consts and mutable(consts[leak[0]]):
+            out.append(Lint("global-mutable-leak", fn, n.lineno, leak[0], f"the module-level `{leak[0]}` is a mutable `{ast.unparse(consts[leak[0]])[:40]}` and is {leak[1]} as it is (no copy): every caller shares one object, so an element added through one of them appears in all"))
+    return out
+
+
 def scan(model: Model, files: set[str] | None = None) -> tuple[list[Lint], int]:
     """All lints for the functions defined in ``files`` (relative paths under src/curies; None = everything)."""
     out: list[Lint] = []
@@ -577,4 +621,5 @@ def scan(model: Model, files: set[str] | None = None) -> tuple[list[Lint], int]:
         out += bisect_unsorted(model, fn)
         out += mutate_while_iterating(model, fn)
         out += iterable_param_reuse(model, fn)
+        out += global_mutable_leak(model, fn)
     return out, n
